@@ -122,7 +122,7 @@ def gen_tree(rng, kind='boss', layout='tree', allfib=False, decoy=False, photopl
     shared = rng.randint(lo, hi - 4)
     files = []
     # the SDSS-I/II | BOSS boundary (MJD 55024 | 55025) decides how number_of_fibers counts: put plates on it
-    edge = rng.random() < (0.5 if allfib else 0.1)
+    edge = rng.random() < (0.7 if allfib else 0.1)
     for p in plates:
         nm = rng.choice([1, 2, 2, 3]) if not (allfib and sdss) else rng.choice([1, 2])
         m0 = rng.choice([shared, shared, rng.randint(lo, hi - 4)])
@@ -248,6 +248,9 @@ def gen_request(rng, tree, style, kw=(), shadow='good'):
         req['fform'] = vec_form(rng, True, 0, 1) if one else scalar_form(rng)
     elif style in ('all_s', 'all_sN'):
         f = rng.choice(pool)
+        onedge = [g for g in pool if g[1] in (55024, 55025)]
+        if onedge and rng.random() < 0.6:
+            f = rng.choice(onedge)
         one = rng.random() < 0.3
         req['plate'] = [f[0]] if one else f[0]
         req['mjd'] = None if nomjd else f[1]
@@ -258,6 +261,9 @@ def gen_request(rng, tree, style, kw=(), shadow='good'):
     elif style == 'all_vN':
         k = min(len(latest_files), rng.randint(2, 3))
         chosen = rng.sample(latest_files, k)
+        onedge = [g for g in latest_files if g[1] in (55024, 55025) and g not in chosen]
+        if onedge and rng.random() < 0.6:
+            chosen[rng.randrange(k)] = onedge[0]
         req['plate'] = [f[0] for f in chosen]
         req['mjd'] = None
         req['fiber'] = None
@@ -385,7 +391,7 @@ class C16(Check):
         kwsets = [(), (), ('run2d',), ('run1d',), ('run2d', 'run1d'), ('topdir',), ('topdir', 'run2d', 'run1d')]
         if cls == 'scrambled':
             tree = gen_tree(rng, 'boss')
-            reqs = [gen_request(rng, tree, 'vvv', kw=rng.choice(kwsets)) for _ in range(8)]
+            reqs = [gen_request(rng, tree, 'vvv', kw=rng.choice(kwsets)) for _ in range(6)]
         elif cls == 'latest':
             tree = gen_tree(rng, rng.choice(['boss', 'boss', 'sdss']))
             reqs = [gen_request(rng, tree, rng.choice(['vNv', 'vNv', 'vNv', 'sNv', 'vNs', 'sNs', 'l1Nv', 'l1Nl1']),
